@@ -15,7 +15,8 @@ META = {
         "the length error at this level; auto-detection selects Empty/WithVersion by exactly those two lengths; the "
         "prefix comparison is bytes[0..2] against the constant \"T1\" and precedes all field decoding; the field "
         "decoders are handed windows of exactly the length they require (so their own length errors are unreachable) and "
-        "their character errors are propagated unchanged.  No panic: every slicing/indexing operation, Assert terminator "
+        "their character errors are propagated unchanged.  Every text entry point (FromStr, from_str_with) hands the caller's "
+        "bytes unchanged to from_str_bytes (R-05.4: no trimming or pre-filtering).  No panic: every slicing/indexing operation, Assert terminator "
         "and panicking call reachable from the parser is enumerated and discharged by a named idiom (window inside the "
         "gated length, constant index below a gated length, u8 index into a 256-entry table, constant arithmetic)."
     ),
@@ -37,6 +38,9 @@ def run(ctx, FS):
         ctx.rule(r, "gate order and error kinds of from_str_bytes: length first, then prefix, then field decoders with exact windows; errors propagated unchanged")
         gates(ctx, r, F)
         c04.text_layout(ctx, r, F)
+        r = "R-05.4"
+        ctx.rule(r, "every text entry point hands the caller's bytes unchanged to from_str_bytes: FromStr/from_str_with = from_str_bytes(s.as_bytes(), None|p) (no trimming, case folding or pre-filtering that would change what is accepted or which error is reported)")
+        c04.entry_points(ctx, r, F)
         r = "R-05.3"
         ctx.rule(r, "every panicking operation reachable from the text parser is discharged by a named idiom")
         roots = [b.path for b in F.method("from_str_bytes", "hash::inner::FuzzyHash<")] + [b.path for b in F.method("from_str_bytes", "hash::FuzzyHash<")] + \
